@@ -73,21 +73,21 @@ def numNibbles(manifest, with_contract=True):
     asm = Source("hexasm.hpp", manifest)
     b, _, _ = asm.block_after(r"static int numNibbles\(int value\) \{", "numNibbles")
     # the loop: `while (<var> >= 16) {` -- variable name captured so a rename is followed
-    m = re.search(r"while \((\w+) >= 16\) \{", b)
+    m = re.search(r"while \(((\w+) >= 16[^{;]*)\) \{", b)
     if not m:
-        raise ExtractionError("numNibbles: loop `while (<v> >= 16) {` not found")
-    var = m.group(1)
+        raise ExtractionError("numNibbles: loop `while (<v> >= 16 ...) {` not found")
+    cond, var = m.group(1), m.group(2)
     cnt = re.search(r"\bint (\w+) = 1;", b)
     if not cnt:
         raise ExtractionError("numNibbles: counter declaration `int <n> = 1;` not found")
     n = cnt.group(1)
-    loopc = ("while (%s >= 16)\n"
+    loopc = ("while (%s)\n"
              "  __CPROVER_assigns(%s, %s)\n"
              "  __CPROVER_loop_invariant(%s >= 1 && %s <= 8 && %s > 0 && %s == (__CPROVER_loop_entry(%s) >> (4 * (%s - 1))) && (%s == 8 ==> %s < 16))\n"
-             "  __CPROVER_decreases(%s)\n  {") % (var, var, n, n, n, var, var, var, n, n, var, var)
+             "  __CPROVER_decreases(%s)\n  {") % (cond, var, n, n, n, var, var, var, n, n, var, var)
     rules = [(r"std::abs\(", "abs(", 0), (r"static_cast<unsigned>\(", "(unsigned)(", 0)]
     if with_contract:
-        rules.append((r"while \(\w+ >= 16\) \{", loopc, 1, 1))
+        rules.append((r"while \(\w+ >= 16[^{;]*\) \{", loopc.replace("\\", "\\\\"), 1, 1))
     b = rewrite(b, rules, "numNibbles", manifest)
     leftover_check(b, "numNibbles")
     return "static int numNibbles(int value)" + (NUMNIBBLES_CONTRACT if with_contract else "\n") + b + "\n"
